@@ -186,7 +186,8 @@ func buildShiftMatchingPredicate(sw swamp.Swamp, beaconType swamp.BeaconType, fi
 		if verifhook.Enabled {
 			verifhook.Trace("claims.pred", "op", "shiftmatching", "mode", int(plan.Mode), "cand", candidates)
 		}
-		filterEval = plan.Residual
+		// keep evaluating the whole filter (indexed leg included) on the live record under the beacon
+		// lock: the candidate set was computed before the lock and is only a fast reject
 	}
 
 	if !hasTimeBounds {
